@@ -1469,6 +1469,60 @@ func c06Ambiguity(c *Ctx, rule string) {
 			return true
 		})
 		c.Check(okAmb, rule, f.Name+"|second-match-is-ambiguous", f.Decl.Pos(), "a second match returns ErrFieldAmbiguous", "the unqualified lookup does not return ErrFieldAmbiguous when the name matches twice: it resolves silently to one side")
+		// … and under no further condition: what governs the ambiguity return is the name comparison and the
+		// "already found" marker, nothing else about the element (a test of the table id lets two same-named
+		// columns of one table id — a self-join without aliases — resolve silently to the left one)
+		if okAmb {
+			var stack []ast.Node
+			extra := ""
+			var extraPos token.Pos
+			ast.Inspect(f.Decl.Body, func(x ast.Node) bool {
+				if x == nil {
+					stack = stack[:len(stack)-1]
+					return true
+				}
+				stack = append(stack, x)
+				ret, ok := x.(*ast.ReturnStmt)
+				if !ok {
+					return true
+				}
+				mentionsAmb := false
+				ast.Inspect(ret, func(y ast.Node) bool {
+					if id, ok := y.(*ast.Ident); ok && id.Name == "ErrFieldAmbiguous" {
+						mentionsAmb = true
+					}
+					return true
+				})
+				if !mentionsAmb {
+					return true
+				}
+				for i := len(stack) - 2; i >= 0; i-- {
+					ifs, ok := stack[i].(*ast.IfStmt)
+					if !ok {
+						continue
+					}
+					ast.Inspect(ifs.Cond, func(y ast.Node) bool {
+						switch z := y.(type) {
+						case *ast.SelectorExpr:
+							if v := fieldVar(f, z); v != nil && v.Name() != "Column" {
+								extra, extraPos = f.Src(ifs.Cond), ifs.Cond.Pos()
+							}
+						case *ast.CallExpr:
+							if id, ok := z.Fun.(*ast.Ident); !ok || id.Name != "len" {
+								extra, extraPos = f.Src(ifs.Cond), ifs.Cond.Pos()
+							}
+						}
+						return true
+					})
+				}
+				return true
+			})
+			if extra != "" {
+				c.Fail(rule, f.Name+"|ambiguity-unconditional", extraPos, "the ambiguity of a name that matches twice is reported only when %s: two same-named columns for which this is false (the same table on both sides of a join without aliases) resolve silently to the first one", extra)
+			} else {
+				c.OK(rule, f.Name+"|ambiguity-unconditional", f.Decl.Pos(), 1, "nothing but the name comparison and the found marker governs the ambiguity return")
+			}
+		}
 	}
 	if f := c.NeedFunc(rule, "storage.Fields.LookupColIdxByID"); f != nil {
 		// the success return sits where both comparisons are known to hold, however the test is written
@@ -1535,6 +1589,101 @@ func c06Ambiguity(c *Ctx, rule string) {
 			return true
 		})
 		c.Check(okAlias && def, rule, f.Name+"|table-id", f.Decl.Pos(), "table id = alias if present, else name", "the table id of a scanned table is not its alias when present and its name otherwise")
+		// the Field objects the id is written into belong to this occurrence of the table alone: they come from
+		// the relation manager's Fetch in this very invocation (a fresh list per call). A list that is kept and
+		// handed out again shares its *Field pointers: the second occurrence's alias overwrites the first one's
+		inspectBody(f.Decl.Body, func(x ast.Node) bool {
+			as, ok := x.(*ast.AssignStmt)
+			if !ok || len(as.Lhs) != 1 {
+				return true
+			}
+			sel, ok := ast.Unparen(as.Lhs[0]).(*ast.SelectorExpr)
+			if !ok || sel.Sel.Name != "TableID" {
+				return true
+			}
+			v := fieldVar(f, sel)
+			if v == nil || !namedTypeIs(f.TypeOf(sel.X), "storage", "Field") {
+				return true
+			}
+			key := f.Name + "|table-id-written-into-own-fields"
+			// the element variable ranges over a list …
+			var list ast.Expr
+			if id, ok := ast.Unparen(sel.X).(*ast.Ident); ok {
+				inspectBody(f.Decl.Body, func(y ast.Node) bool {
+					if rs, ok := y.(*ast.RangeStmt); ok {
+						if vid, ok := rs.Value.(*ast.Ident); ok && f.ObjOf(vid) == f.ObjOf(id) {
+							list = rs.X
+						}
+					}
+					return true
+				})
+			}
+			lid, ok := ast.Unparen(list).(*ast.Ident)
+			if list == nil || !ok {
+				c.Undecided(rule, key, "the field whose table id is written is not the element of a range over a local list")
+				return true
+			}
+			// … every definition of which is the Fetch of the relation manager (followed through plain copies)
+			fresh, other, unknown := 0, "", ""
+			seenObj := map[types.Object]bool{}
+			var defsOf func(obj types.Object, before token.Pos, depth int)
+			defsOf = func(obj types.Object, before token.Pos, depth int) {
+				if seenObj[obj] || depth > 4 {
+					return
+				}
+				seenObj[obj] = true
+				inspectBody(f.Decl.Body, func(y ast.Node) bool {
+					das, ok := y.(*ast.AssignStmt)
+					if !ok {
+						return true
+					}
+					for i, l := range das.Lhs {
+						id, ok := l.(*ast.Ident)
+						if !ok || f.ObjOf(id) != obj {
+							continue
+						}
+						var rhs ast.Expr
+						if len(das.Rhs) == 1 {
+							rhs = das.Rhs[0]
+						} else if i < len(das.Rhs) {
+							rhs = das.Rhs[i]
+						}
+						switch r := ast.Unparen(rhs).(type) {
+						case *ast.CallExpr:
+							switch {
+							case f.CallIs(r, "engine.RelationManager.Fetch"):
+								fresh++
+							case len(das.Rhs) == 1 && len(das.Lhs) > 1:
+								unknown = f.Src(r.Fun)
+							default:
+								other = f.Src(rhs) // make(…), a conversion, append(…): a list put together here
+							}
+						case *ast.Ident:
+							if o := f.ObjOf(r); o != nil && r.Name != "nil" {
+								defsOf(o, das.Pos(), depth+1)
+							}
+						default:
+							other = f.Src(rhs)
+						}
+					}
+					return true
+				})
+			}
+			defsOf(f.ObjOf(lid), as.Pos(), 0)
+			if other == "" && unknown != "" {
+				c.Undecided(rule, key, "the field list comes from %s, which the rule does not follow", unknown)
+				return true
+			}
+			switch {
+			case other != "":
+				c.FailConfined(rule, key, as.Pos(), "nestedLoopJoin writes the table id into fields that come from %s, not from the relation manager's Fetch of this invocation: a field list that is kept and handed out again shares its *Field objects, so the alias of a later occurrence of the table overwrites that of an earlier one (a self-join under two aliases resolves both to the same side)", other)
+			case fresh > 0:
+				c.OK(rule, key, as.Pos(), fresh, "the fields come from RelationManager.Fetch in this invocation")
+			default:
+				c.Undecided(rule, key, "where the field list comes from is not decided")
+			}
+			return true
+		})
 	}
 }
 
@@ -1562,6 +1711,7 @@ func runC07(c *Ctx) {
 	ruleLimitOnlyAtTheEnd(c, "C07.11")
 	ruleValueKindTotality(c, "C07.12", func(f *Func) bool { return f.Pkg == c.W.Pkgs["engine"] && aggregateCone(f) }, 0)
 	ruleGroupByResolution(c, "C07.13")
+	ruleStatementFieldsFromProductions(c, "C07.14")
 }
 
 func c07Rounding(c *Ctx, rule string) {
